@@ -12,7 +12,8 @@ import math
 from ..model import load_model
 from ..harness import partition, valuations
 from .. import spec
-from ..evalengine import depth1_instances, constant_child_instances, eval_case, pmap, param_class, region_class
+from ..evalengine import (depth1_instances, constant_child_instances, inspected_child_instances, wide_nary_instances,
+                          eval_case, pmap, param_class, region_class)
 
 E = math.e
 
@@ -78,6 +79,14 @@ def check(rep):
         names = spec.variables(tree)
         use = atoms if len(names) <= 2 else coarse
         for val in valuations(names, use):
+            cases.append((tree, label, val, "at"))
+    from ..simpengine import SIGN_REGIONS
+    for tree, label in inspected_child_instances(model, tier):
+        names = spec.variables(tree)
+        for val in valuations(names, coarse if len(names) <= 2 else SIGN_REGIONS):
+            cases.append((tree, label, val, "at"))
+    for tree, label in wide_nary_instances(model, tier):
+        for val in valuations(spec.variables(tree), SIGN_REGIONS):
             cases.append((tree, label, val, "at"))
     # bare-number entry point: every one-variable and zero-variable depth-1 instance
     for tree, label in inst1:
